@@ -194,6 +194,8 @@ class Lab:
         if not f:
             return out
         for s in f["structs"]:
+            if s.get("synthetic"):
+                continue
             out[lab_idl.go_struct_name(s["name"])] = [(x["id"], lab_idl.title(x["name"])) for x in s["fields"]]
         for svc in f["services"]:
             for ms in lab_idl.method_structs(self.program, pkg, svc["name"]):
@@ -209,6 +211,8 @@ class Lab:
         for fn in self.program["order"]:
             f = self.program["files"][fn]
             for s in f["structs"]:
+                if s.get("synthetic"):
+                    continue
                 out[self.struct_key(fn, lab_idl.go_struct_name(s["name"]))] = (fn, s)
             for svc in f["services"]:
                 for ms in lab_idl.method_structs(self.program, fn, svc["name"]):
